@@ -4,7 +4,10 @@ package main
 // Minute(), Hour() ... are field reads and Add/AddDate/Date/Truncate are carry chains (ite terms) - no division of a
 // 64-bit instant by 60/3600/86400 ever reaches the solver (see DESIGN.md section 7). One fixed location per value.
 
-import "fmt"
+import (
+	"fmt"
+	"time"
+)
 
 type Civil struct {
 	y, mo, d, h, mi, s *Term // bv64 each (Go int)
@@ -249,12 +252,18 @@ func (m *Machine) civilAddDate(t TimeV, y, mo, d *Term) Value {
 	case y.val == 0 && mo.val == 0 && d.val == 1:
 		return mk(m.civAddDay(c))
 	case y.val == 0 && mo.val == 1 && d.val == 0:
-		// no day overflow possible when the day is <= 28 (Next calls this on the first of a month)
-		m.assumeSupported(tt.Cmp(OpULE, c.d, m.cf(28)), "AddDate(0,1,0) with day > 28 (normalisation not modelled)")
+		// Go normalises an overflowing day into the following month (Jan 31 + 1 month = "Feb 31" = Mar 2/3); the
+		// overflow is at most 3 days, so one step is enough
 		dec := tt.Eq(c.mo, m.cf(12))
 		n := *c
-		n.mo = tt.Ite(dec, m.cf(1), tt.Bin(OpAdd, c.mo, m.cf(1)))
-		n.y = tt.Ite(dec, tt.Bin(OpAdd, c.y, m.cf(1)), c.y)
+		mo1 := tt.Ite(dec, m.cf(1), tt.Bin(OpAdd, c.mo, m.cf(1)))
+		y1 := tt.Ite(dec, tt.Bin(OpAdd, c.y, m.cf(1)), c.y)
+		dim1 := m.daysIn(y1, mo1)
+		over := tt.Cmp(OpULT, dim1, c.d)
+		dec2 := tt.Eq(mo1, m.cf(12))
+		n.mo = tt.Ite(over, tt.Ite(dec2, m.cf(1), tt.Bin(OpAdd, mo1, m.cf(1))), mo1)
+		n.y = tt.Ite(tt.And(over, dec2), tt.Bin(OpAdd, y1, m.cf(1)), y1)
+		n.d = tt.Ite(over, tt.Bin(OpSub, c.d, dim1), c.d)
 		if c.w != nil {
 			// weekday advances by days-in-month mod 7
 			dim := m.daysIn(c.y, c.mo)
@@ -310,6 +319,31 @@ func (m *Machine) smallMod7(x *Term) *Term {
 	res := x
 	for _, k := range []uint64{7, 14, 21, 28} {
 		res = tt.Ite(tt.Cmp(OpULE, m.cf(k), x), tt.Bin(OpSub, x, m.cf(k)), res)
+	}
+	return res
+}
+
+// weekdayOf: the weekday (Sunday = 0) of the date (y, mo, d) for ylo <= y <= yhi, as table look-ups (ite chains over
+// constants computed with the real time package at encoding time) and one small remainder: no division.
+func (m *Machine) weekdayOf(y, mo, d *Term, ylo, yhi uint64) *Term {
+	tt := m.tt
+	leap := tt.Eq(tt.Extract(y, 1, 0), tt.BV(0, 2)) // 1901..2099
+	yoff := m.cf(0)
+	for yy := yhi; yy >= ylo; yy-- {
+		wd := uint64(time.Date(int(yy), 1, 1, 0, 0, 0, 0, time.UTC).Weekday())
+		yoff = tt.Ite(tt.Eq(y, m.cf(yy)), m.cf(wd), yoff)
+	}
+	moff := m.cf(0)
+	for mm := uint64(12); mm >= 2; mm-- {
+		// days before month mm in a common year / leap year, mod 7 (2023 common, 2024 leap)
+		cmn := uint64(time.Date(2023, time.Month(mm), 1, 0, 0, 0, 0, time.UTC).YearDay()-1) % 7
+		lp := uint64(time.Date(2024, time.Month(mm), 1, 0, 0, 0, 0, time.UTC).YearDay()-1) % 7
+		moff = tt.Ite(tt.Eq(mo, m.cf(mm)), tt.Ite(leap, m.cf(lp), m.cf(cmn)), moff)
+	}
+	sum := tt.Bin(OpAdd, tt.Bin(OpAdd, yoff, moff), tt.Bin(OpSub, d, m.cf(1))) // 0..6+6+30 = 42
+	res := sum
+	for _, k := range []uint64{7, 14, 21, 28, 35, 42} {
+		res = tt.Ite(tt.Cmp(OpULE, m.cf(k), sum), tt.Bin(OpSub, sum, m.cf(k)), res)
 	}
 	return res
 }
